@@ -205,7 +205,7 @@ def two_body(res, tier):
                 viol(res, "two-body-exactness", integrator=name, opts=opts, direction=sgn, error=err)
 
 
-def measure(res, cfgs, masses, s0, refs, T, tag, dirs, accbound=5e-4, setup=None):
+def measure(res, cfgs, masses, s0, refs, T, tag, dirs, accbound=5e-4, setup=None, frame=None):
     """error at three step sizes against the reference; observed order >= advertised - 0.7 above the rounding floor"""
     nb = len(masses)
     floor = 3e-11
@@ -217,13 +217,24 @@ def measure(res, cfgs, masses, s0, refs, T, tag, dirs, accbound=5e-4, setup=None
             sim.add(m=m / G, x=s0[6 * i], y=s0[6 * i + 1], z=s0[6 * i + 2], vx=s0[6 * i + 3], vy=s0[6 * i + 4], vz=s0[6 * i + 5])
         if setup:
             setup(sim)
+        if frame:           # the same system seen from a displaced, uniformly moving frame
+            for p in sim.particles:
+                p.x += frame[0][0]
+                p.y += frame[0][1]
+                p.z += frame[0][2]
+                p.vx += frame[1][0]
+                p.vy += frame[1][1]
+                p.vz += frame[1][2]
         set_opts(sim, name, opts)
         sim.dt = sgn * T / n
         sim.steps(n)
         sim.synchronize()
         got = []
         for p in sim.particles:
-            got += [p.x, p.y, p.z]
+            if frame:
+                got += [p.x - frame[0][0] - frame[1][0] * sim.t, p.y - frame[0][1] - frame[1][1] * sim.t, p.z - frame[0][2] - frame[1][2] * sim.t]
+            else:
+                got += [p.x, p.y, p.z]
         return got
 
     def one(name, opts, sgn, n):
@@ -332,12 +343,16 @@ def order_runs(res, adv, tier, valid=(), seed=0):
             [("eos", {"phi0": "lf4_2", "phi1": "lf4", "safe_mode": sm}, A["eos_lf4_2"], 16) for sm in (1, 0)] + \
             [("eos", {"phi0": "plf7_6_4", "phi1": "lf8", "n": 4, "safe_mode": sm}, A["eos_plf764"], 2) for sm in (1, 0)] + \
             [("eos", {"phi0": "lf8_6_4", "phi1": "lf8", "n": 4, "safe_mode": sm}, A["eos_lf864"], 2) for sm in (1, 0)]
+    FRAME = ((3.0, -1.5, 0.75), (0.21, -0.34, 0.13))
     if tier == "quick":
         measure(res, cfgs, masses, s0, refs, T, "", (1,))
         measure(res, [c for c in cfgs if c[0] in ("whfast", "eos")], masses, s0, refs, T, "", (-1,))
+        measure(res, cfgs[::2], masses, s0, refs, T, "moving frame ", (1,), frame=FRAME)
     else:
         measure(res, cfgs, masses, s0, refs, T, "", (1, -1))
         lat = lattice_cfgs(adv, valid)
+        measure(res, cfgs, masses, s0, refs, T, "moving frame ", (1, -1), frame=FRAME)
+        measure(res, lat[1::2], masses, s0, refs, T, "moving frame lattice ", (1,), frame=FRAME)
         measure(res, lat, masses, s0, refs, T, "lattice ", (1,))
         measure(res, lat[::3], masses, s0, refs, T, "lattice ", (-1,))
         # test particles: type 0 (massless third body, N_active = 2) and type 1 (a light third body that acts on the active ones)
